@@ -16,9 +16,39 @@ checks = {
    technique="runtime fault injection: fail-stop crash enumerated at every storage operation (and every write prefix / half-applied write on file semantics) of the victim operation, on an instrumented storage engine; recovery oracle = cold reopen, before-or-after state, fixed follow-up workload",
    text="For every explored (history, victim operation, back end) the crash point is enumerated over the victim's whole storage trace; after each crash a cold handle must open the lake, read every pool and branch, observe exactly the before- or after-state (as observed on uncrashed clones) and complete a fixed follow-up workload; double crashes are sampled. Fault enumeration is the right level because the quantifier is 'every storage operation of every mutation'.",
    note="fail-stop model (the crashing operation and all later ones have no effect, optionally a half-applied write); durable, ordered storage; the file back end is a model of pkg/storage/file.go (truncate-then-write Put, create-then-fill PutIfNotExists); built without -race"),
+ "C08": dict(level="exploration", design="DESIGN.md §3 C08",
+   technique="runtime monitor: differential oracle (parallelism 1 vs 2,3,8,16 × GOMAXPROCS 1,2,16) over generated pools and programs with order-aware comparison modes, Go race detector, scan-leg hook counters",
+   text="Held on every generated (pool, program, parallelism, GOMAXPROCS) execution: the result at parallelism p equals the result at 1 in the program's comparison mode (exact sequence where the language defines a total order, pool-key order + multiset for ordered scans, multiset with normalised collect/union otherwise); the race detector watches the scan legs. Exploration is right because programs × pools × schedules are unbounded.",
+   note="trusts the harness's mode assignment (head/tail only at tie-free boundaries); schedules are those the Go scheduler produced under the listed GOMAXPROCS values"),
+ "C09": dict(level="exploration", design="DESIGN.md §3 C09",
+   technique="runtime monitor: differential oracle vector runtime vs sequential runtime (lake queries before/after vector add/delete; VectorCompile vs CompileQuery on the VNG encoding of the same values), disagreements classified by operator family and kind",
+   text="Compares the vector runtime with the sequential runtime on generated data and programs. On the pinned tree the vector runtime disagrees broadly (see known_findings.json: C09-*); the check holds those as known findings keyed by (operator family, kind of disagreement) and alarms on any family/kind not listed, on a difference after vector delete, or on a hang.",
+   note="union/enum columns excluded (C03 findings crash the vector cache); programs the vector compiler rejects are outside the claim; built without -race"),
+ "C12": dict(level="exploration", design="DESIGN.md §3 C12",
+   technique="runtime monitor: operation-level deterministic scheduler over an instrumented storage engine (exhaustive single-preemption pair schedules + random segment schedules), recorded call/return history checked against the branch's commit chain and a value-level replay, porcupine linearizability check of the pool-name table, mid-schedule cold-handle probes, race detector on a shared-handle stress part",
+   text="For every executed schedule: every acknowledged commit is exactly once in main's chain, no commit of an unacknowledged operation is in it, chain order respects real-time order, the final contents equal the replay of the acknowledged operations in chain order, other branches are untouched, every branch is readable from a cold handle at every schedule switch and at the end, and the pool create/rename/drop history is linearizable (porcupine). Exploration with enumerated single-preemption schedules is the right level: the quantifier is over interleavings of storage operations.",
+   note="interleavings at storage-operation granularity (not instruction granularity); clients are separate lake handles; starvation of the journal's bounded retry loop counts as a reported failure; scheduled parts run without -race, the shared-handle stress part with it"),
+ "C13": dict(level="exploration", design="DESIGN.md §3 C13",
+   technique="runtime monitor: model-based re-query of every commit after every later history step; reader/writer schedules under the operation-level scheduler with a chain-position window oracle; race detector on a shared-handle stress part",
+   text="(a) every commit created in a history reads the same at every later step (until vacuumed); (b) under every explored reader/writer schedule the reader returns exactly the contents of one commit of main's chain, not older than the last commit acknowledged before it started and not newer than the last started before it returned; (c) free-running readers and writers on one handle under the race detector.",
+   note="storage-operation granularity; the reader's caches are warmed by a prior query on its handle"),
+ "C15": dict(level="exploration", design="DESIGN.md §3 C15",
+   technique="runtime monitor: object-level reference model of merge/revert over exhaustive two-branch histories and random multi-branch histories, every branch re-read from a cold handle after every operation",
+   text="After every operation of every explored history every branch is readable and equals the model (merge = parent ∪ child-adds-since-ancestor ∖ child-deletes-since-ancestor; revert = remove the commit's adds still present, restore its deletes still absent; a failed merge/revert changes nothing). Exhaustive over pairs of ≤L-operation sequences on child and parent; random beyond.",
+   note="trusts the model in internal/lk/model.go; built without -race"),
+ "C16": dict(level="exploration", design="DESIGN.md §3 C16",
+   technique="runtime monitor: differential oracle pruned lake query / delete-where vs in-memory filter over all pool values, exhaustive predicate enumeration over a pool with an object for every key range, hook/op-log counters of objects pruned and seek indexes read",
+   text="For every enumerated predicate (all atoms, negations, conjunctions with non-key predicates, and pairs; thorough: all pairs) and for random pools/predicates, the lake query and delete -where return/remove exactly the values for which a plain in-memory `where` is true. Exhaustive over the stated predicate grammar in the thorough tier.",
+   note="reference semantics = sequential runtime `where` over an in-memory reader; built without -race"),
+ "C19": dict(level="exploration", design="DESIGN.md §3 C19",
+   technique="runtime monitor: differential oracle direct access vs HTTP service (service.Core behind httptest) over generated histories, all load content types and response formats, raw HTTP for outputs and error channels",
+   text="Each history is applied to a local lake and through the service; per step outcomes, model agreement on both sides, and per response format the served bytes equal the locally formatted bytes (zng and json compared as decoded values); compile errors and late errors must reach the client through HTTP status, in-band error or the status endpoint.",
+   note="ids are not compared; values are int/string records; loads go through the format's own reader on both sides"),
 }
 not_built = {
 }
+for pending in ["C09"]:  # monitors that exist but are not yet through the silence gate
+    checks.pop(pending, None)
 hooks_commits = subprocess.run(["git","-C","/repo","log","--format=%H %s"],capture_output=True,text=True).stdout.splitlines()
 hook_commits = [l.split()[0] for l in hooks_commits if " verif hooks" in l]
 m = {
